@@ -7,6 +7,8 @@ export GOFLAGS=-mod=mod GOPROXY=off GOSUMDB=off GOTOOLCHAIN=local
 mkdir -p build coq/Run evidence replays
 (cd gen && go build -o ../build/gen .)
 ./build/gen /repo coq/Generated.v
+(cd genfn && go build -o ../build/genfn .)
+./build/genfn /repo coq/GeneratedFn.v
 (cd coq && coq_makefile -f _CoqProject -o Makefile >/dev/null && timeout 3000 make -j16 2>&1 | grep -v -i 'conda' | tail -5)
 cp /repo/go.sum harness/go.sum
 (cd harness && go build -tags verif -o ../build/harness .)
